@@ -43,6 +43,15 @@ theorem f64_exact (n : Nat) (h : n < 2 ^ 53) : f64 n = n := round_exact 53 n h
 theorem f64_exact_u32 (n : Nat) (h : n < 2 ^ 32) : f64 n = n :=
   f64_exact n (Nat.lt_of_lt_of_le h (by decide))
 
+/-- `x as u8` / `as u16` / `as u32` from a wider unsigned type: the low bits -/
+def u8 (n : Nat) : Nat := n % 2 ^ 8
+def u16 (n : Nat) : Nat := n % 2 ^ 16
+def u32 (n : Nat) : Nat := n % 2 ^ 32
+
+theorem u32_exact (n : Nat) (h : n < 2 ^ 32) : u32 n = n := Nat.mod_eq_of_lt h
+theorem u16_exact (n : Nat) (h : n < 2 ^ 16) : u16 n = n := Nat.mod_eq_of_lt h
+example : u32 (2 ^ 32 + 4101) = 4101 := by decide
+
 /-- the first integer `f32` cannot hold: 2^24 + 1 becomes 2^24 -/
 example : f32 (2 ^ 24 + 1) = 2 ^ 24 := by decide
 example : f32 (2 ^ 24 + 3) = 2 ^ 24 + 4 := by decide
